@@ -14,6 +14,10 @@ async fn reopen(ctx: &mut Ctx, w: &mut World) -> bool {
 
 pub async fn history(ctx: &mut Ctx, root: &std::path::Path, tag: &str, nops: usize) {
     let cfg = Cfg { nb: *ctx.rng.pick(&[1u16, 2, 2, 4, 6]), segsize: 128 * 1024, compression: ctx.rng.chance(1, 2), sync_ms: 8 };
+    // a third of the histories: max_batch_size 2, smaller than many transactions (a sync must publish
+    // ALL pending index entries of the transactions it acknowledges, however many)
+    let small_batch = ctx.rng.chance(1, 3);
+    MAX_BATCH.store(if small_batch { ctx.stat("store_small_max_batch_histories"); 2 } else { 1_000_000 }, std::sync::atomic::Ordering::Relaxed);
     let mut w = World::new(ctx, root, cfg, tag);
     let op = format!("st open nb={} seg={} c={}", w.cfg.nb, w.cfg.segsize, w.cfg.compression as u8);
     w.hist.push(op.clone());
@@ -44,6 +48,7 @@ pub async fn history(ctx: &mut Ctx, root: &std::path::Path, tag: &str, nops: usi
     do_reads(ctx, &mut w, 6).await;
     let n = w.spec.txs.len();
     for txi in 0..n { if txi % 3 == 0 || txi + 4 > n { check_acked_visible(ctx, &mut w, txi, "at the end of the history").await; } }
+    MAX_BATCH.store(1_000_000, std::sync::atomic::Ordering::Relaxed);
     ctx.stat_add("accepted_transactions", n as u64);
     ctx.nontrivial(&w.hist.join(";"));
     if let Some(db) = w.db.take() { db.shutdown().await; }
@@ -103,6 +108,38 @@ pub async fn mixed_boundary_history(ctx: &mut Ctx, root: &std::path::Path, tag: 
 /// number of harness processes the thorough budget is split over (set by `check`)
 pub fn chunks() -> usize { std::env::var("VH_CHUNKS").ok().and_then(|x| x.parse().ok()).filter(|x| *x > 0).unwrap_or(1) }
 
+/// Directed layout for the sealed-segment key lookup (bloom filter + MPHF): one short stream id that
+/// is a proper PREFIX of thousands of other stream ids; the later sealed segments hold only the long
+/// ids (their bloom filters are saturated, so the lookup of the absent short id reaches the MPHF).
+pub async fn prefix_streams_history(ctx: &mut Ctx, root: &std::path::Path, tag: &str) {
+    let cfg = Cfg { nb: 1, segsize: 128 * 1024, compression: false, sync_ms: 1 };
+    let mut w = World::new(ctx, root, cfg, tag);
+    let op = format!("st open nb=1 seg={} c=0", w.cfg.segsize);
+    w.hist.push(op.clone());
+    match open_db(&w.dir, &w.cfg) { Ok(db) => w.db = Some(db), Err(_) => return };
+    ctx.emit(&op, "ok");
+    let pk_idx = 0usize; let pkey = w.pkeys[pk_idx]; let pid = w.pid_of(&pkey);
+    let one = |w: &mut World, stream: String| -> GenTx {
+        let idx = w.next_event_idx; w.next_event_idx += 1;
+        GenTx { pkey, pk_idx, pid, exp_seq: sierradb_protocol::ExpectedVersion::Any, events: vec![GenEvent { id: sierradb::id::uuid_v7_with_partition_hash(sierradb::id::uuid_to_partition_hash(pkey)), idx,
+            stream, exp: sierradb_protocol::ExpectedVersion::Any, ts: 7, name: "p".into(), meta: vec![], payload: vec![] }] }
+    };
+    for _ in 0..3 { let tx = one(&mut w, "px".into()); do_append(ctx, &mut w, &tx).await; }
+    let n = if ctx.thorough() { 4200 } else { 2700 };
+    for i in 0..n { let tx = one(&mut w, format!("px{i:04}")); if !do_append(ctx, &mut w, &tx).await.starts_with("ok") { break; } }
+    for pass in 0..2 {
+        for stream in ["px", "px0000", "px0007", "px2000"] {
+            for from in [0u64, 1, 3] { scan_and_check_stream(ctx, &mut w, 0, stream, from, true, &[50]).await; }
+            scan_and_check_stream(ctx, &mut w, 0, stream, u64::MAX, false, &[2, 3]).await;
+        }
+        if pass == 0 && !reopen(ctx, &mut w).await { return; }
+    }
+    ctx.stat("prefix_streams_histories");
+    ctx.nontrivial(&format!("prefix-streams {n}"));
+    if let Some(db) = w.db.take() { db.shutdown().await; }
+    let _ = std::fs::remove_dir_all(&w.dir);
+}
+
 pub fn run_store(ctx: &mut Ctx) {
     let rt = tokio::runtime::Builder::new_multi_thread().worker_threads(4).enable_all().build().unwrap();
     let root = if std::path::Path::new("/dev/shm").is_dir() { tempfile::tempdir_in("/dev/shm").unwrap() } else { tempfile::tempdir().unwrap() };
@@ -111,6 +148,7 @@ pub fn run_store(ctx: &mut Ctx) {
         let nops = ctx.rng.range(30, 110) as usize;
         rt.block_on(history(ctx, root.path(), &format!("{i}"), nops));
     }
+    rt.block_on(prefix_streams_history(ctx, root.path(), "px"));
     for i in 0..(if ctx.thorough() { (20 / chunks()).max(3) } else { 3 }) { rt.block_on(mixed_boundary_history(ctx, root.path(), &format!("mb{i}"))); }
 }
 
